@@ -50,13 +50,112 @@ func (fx *Fx) execFor(st *State, s *ast.ForStmt) {
 	// counting loops `for i := a; …; i++` whose body leaves i alone: a <= i at every loop head, without an
 	// annotation (what a range loop's hidden counter gives for free; keeps a rewrite of one form into the other quiet)
 	if obj, initTerm := fx.countingLoopVar(st, s); obj != nil {
+		// rk<N> (the number of completed iterations, as for a range loop) is i - a
+		if fx.countLoops == nil {
+			fx.countLoops = map[string]countLoop{}
+		}
+		fx.countLoops[fmt.Sprintf("rk%d", lp.ord)] = countLoop{obj, initTerm}
+		// upper bound: with a condition `i < E` (or `i != E`, `i <= E`) whose E the loop cannot change, i never passes E
+		// unless it started beyond it (then the body never runs and i keeps its initial value)
+		var bound ast.Expr
+		strict := true
+		if be, ok := s.Cond.(*ast.BinaryExpr); ok {
+			if lid, ok := unparen(be.X).(*ast.Ident); ok && fx.info.Uses[lid] == obj {
+				switch be.Op {
+				case token.LSS, token.NEQ:
+					bound = be.Y
+				case token.LEQ:
+					bound, strict = be.Y, false
+				}
+				if be.Op == token.NEQ {
+					bound = nil // i != E does not stop beyond E
+				}
+			}
+		}
+		if bound != nil && !fx.stableIn(fx.w.modsOfNode(fx, s), bound) {
+			bound = nil
+		}
 		lp.atHead = func(h *State) {
-			if cur, ok := h.vars[obj]; ok {
-				h.assume(fmt.Sprintf("(>= %s %s)", cur, initTerm))
+			cur, ok := h.vars[obj]
+			if !ok {
+				return
+			}
+			h.assume(fmt.Sprintf("(>= %s %s)", cur, initTerm))
+			if bound != nil {
+				func() {
+					defer func() { recover() }()
+					e := fx.eval(h, bound) // (a stable, side-effect free expression: evaluating it adds only facts about its value)
+					if e.S != "Int" {
+						return
+					}
+					lim := e.T
+					if !strict {
+						lim = "(+ " + lim + " 1)"
+					}
+					h.assume(fmt.Sprintf("(or (<= %s %s) (= %s %s))", cur, lim, cur, initTerm))
+				}()
 			}
 		}
 	}
 	fx.runLoop(st, lp)
+}
+
+// stableIn: the value of e cannot be changed by code with the effects ms (constants, unassigned locals, len of such
+// slices, fields of such pointers whose heaps ms does not touch, sums and differences of those).
+func (fx *Fx) stableIn(ms *modSet, e ast.Expr) bool {
+	if ms.all {
+		return false
+	}
+	switch x := unparen(e).(type) {
+	case *ast.BasicLit:
+		return true
+	case *ast.Ident:
+		switch o := fx.info.Uses[x].(type) {
+		case *types.Const:
+			return true
+		case *types.Var:
+			return !isGlobal(o) && !ms.vars[o] && !fx.c.boxedVars[o]
+		}
+		return false
+	case *ast.BinaryExpr:
+		if x.Op == token.ADD || x.Op == token.SUB {
+			return fx.stableIn(ms, x.X) && fx.stableIn(ms, x.Y)
+		}
+		return false
+	case *ast.CallExpr:
+		if id, ok := unparen(x.Fun).(*ast.Ident); ok && len(x.Args) == 1 {
+			if b, ok := fx.info.Uses[id].(*types.Builtin); ok && b.Name() == "len" {
+				switch types.Unalias(fx.info.TypeOf(x.Args[0])).Underlying().(type) {
+				case *types.Slice, *types.Array, *types.Basic:
+					return fx.stableIn(ms, x.Args[0])
+				}
+			}
+		}
+		return false
+	case *ast.SelectorExpr:
+		sel := fx.info.Selections[x]
+		if sel == nil || sel.Kind() != types.FieldVal || !fx.stableIn(ms, x.X) {
+			return false
+		}
+		cur := sel.Recv()
+		for _, idx := range sel.Index() {
+			st, named, _ := structOf(cur)
+			if st == nil {
+				return false
+			}
+			if ms.heaps[fieldKey(named, st.Field(idx).Name())] {
+				return false
+			}
+			cur = st.Field(idx).Type()
+		}
+		return true
+	}
+	return false
+}
+
+type countLoop struct {
+	obj  types.Object
+	init string
 }
 
 func (fx *Fx) countingLoopVar(st *State, s *ast.ForStmt) (types.Object, string) {
